@@ -12,7 +12,7 @@ def signature(ev):
     path = ev["path"].replace("cached-", "")
     if ev["panic"]:
         return "C01|panic|entry=%s" % sc["entry"]
-    if ev["deflt"] < 1 or ev["deflt"] != ev["defltneg"]:
+    if ev["deflt"] < 1 or ev["deflt"] != ev["defltneg"] or ev["deflt"] >= ev.get("sat", 10 ** 9):
         return "C01|default-limit|entry=%s" % sc["entry"]
     if len(ev["main"]) > ev["efflim"]:
         return "C01|bound|path=%s" % path
@@ -80,6 +80,13 @@ def run(ctx):
             for nlp in (False, True):
                 extra.append(dict(entry=entry, limit=50, nlp=nlp, fuzzy=True, thr=0, ponly=False, pboost=True, allplat=True, plats=[],
                                   nocross=False, boost=False, query="raw", raw=raw, corpus="uniq"))
+    # a database that was searched, grown by appending and searched again (memoised per-database state must follow)
+    for corpus in ("grown", "updated"):
+        for entry in ("universal", "cached"):
+            for raw in ("frobnicte", "blrptak", "frobnicate widget", "delete item", "wdgt nmbr"):
+                for nlp in (False, True):
+                    extra.append(dict(entry=entry, limit=rnd.choice([2, 10, 50]), nlp=nlp, fuzzy=True, thr=0, ponly=False, pboost=False, allplat=True,
+                                      plats=[], nocross=False, boost=False, query="raw", raw=raw, corpus=corpus))
     extra += shipped_scenarios(rnd, 60 if q else 1500)
     tr, info, ok, rej = engine.run_cases(ctx, scen + extra, ["C01"])
     for x in rej:
